@@ -252,5 +252,21 @@ PROPS["C17"] = dict(
     level_text=("Sampled exploration with an exact rational oracle; the standard rates are covered by a deterministic grid (first 300 counts, +-3 around every hour up to 24 h)."),
     level_note="Domain limited to 0.01 Hz <= f <= 10 MHz, spans up to 24 h, as the property quantifies.",
 )
+PROPS["C10"] = dict(
+    pkg="c10", idx=10,
+    rule=("Cases = one PoolAlloc[T](Allocator{C,L,K}) (13 types, C 1..4, K 0..8, L = 0 / K / in between, C*K = 0 included) x a generated history of up to "
+          "41 steps from {get (<= 6 outstanding), put, gc (runtime.GC twice), AppendSample x n, Append within capacity, Append beyond capacity (buffer dropped, "
+          "never put), Write, WriteStriped, SetSample, reslice from frame 0}; no use after Put and no double Put by construction. Oracle after every get: "
+          "Channels/Length/Capacity/Len/Cap/BitDepth equal a fresh Alloc's and every sample over Slice(0,K) is zero; after every step every outstanding buffer "
+          "still reads its own ownership stamp plus its own writes over its whole capacity (no shared storage). Non-trivial: a get that returned a recycled "
+          "object (pointer previously passed to Put); sub-classes recycled after dirty use, after reslice-to-shorter, with L>0, several outstanding."),
+    quick=dict(rapid=dict(checks=15000, shards=4)),
+    thorough=dict(rapid=dict(checks=100000, shards=16), fuzz=dict(targets=["FuzzC10"], seconds=30)),
+    assumptions=COMMON_ASSUME + ["sync.Pool hands a just-put object back to the same goroutine almost always; the class histogram in the evidence shows how often a recycled buffer was observed"],
+    technique="model-based stateful property testing (rapid-generated operation histories, shrunk as one value) + bounded-exhaustive get/use/reslice/put/get sweep; freshness and ownership-stamp invariants after every step",
+    level_text=("Generated pool histories against a freshness invariant and per-buffer ownership models; the reuse path is enumerated exhaustively for histories "
+                "get,use,[reslice],put,get,get over 13 types x C<=3 x K<=3 (5)."),
+    level_note="Recycling depends on sync.Pool's per-P cache; the evidence counts recycled gets so a run that never recycled is visible.",
+)
 
 NOT_APPLICABLE = {}
